@@ -44,7 +44,7 @@ theorem step_boundary {cp : Compiled} (hfit : FitsU16 cp.code) (hj : JumpsClosed
   have hsz : (progOf cp).code.size = lsize cp.code := by
     simp [progOf, Compiled.bytes, encodeAll_length, lsize]
   obtain ⟨pre, i, post, hcode, hpre⟩ := split_at_boundary cp.code s.ip hb (by omega)
-  have hat : CodeAt (progOf cp) s.ip (i :: post) :=
+  have hat : CodeAtP (progOf cp) s.ip (i :: post) :=
     ⟨pre, [], by simp [progOf, Compiled.bytes, hcode], hpre, by
       intro x hx; exact hfit x (by rw [hcode]; simp only [List.mem_append]; exact Or.inr hx)⟩
   have hpost := step_ok_ip hat.bytes rfl hstep
